@@ -52,7 +52,7 @@ void prop_c06(hz::Ctx &ctx) {
   const Pool &P = pool(ctx);
   // (1) all ordered pairs of a representative set (one line per instruction class/form/size group)
   {
-    std::vector<size_t> R; size_t stride = std::max<size_t>(1, P.lines.size() / (ctx.thorough() ? 900 : 320));
+    std::vector<size_t> R; size_t stride = std::max<size_t>(1, P.lines.size() / (ctx.thorough() ? 1200 : 480));
     for (size_t i = 0; i < P.lines.size(); i += stride) R.push_back(i);
     for (size_t i = 0; i < R.size(); i++) for (size_t j = 0; j < R.size(); j++) {
       if (!ctx.take()) continue;
@@ -92,7 +92,7 @@ void prop_c06(hz::Ctx &ctx) {
     for (size_t k = 1; k < c.lines.size() && k < cutflags.size(); k++) if (cutflags[k]) c.cuts.push_back((int)k);
     c.start = start; c.prefill = prefill; c.combo = combo; c.noise = noise; return c; },
     rc::gen::container<std::vector<int>>(range(0, 1 << 20)), rc::gen::container<std::vector<bool>>(rc::gen::arbitrary<bool>()), range(0, 4097), range(0, 3), range(0, 12), rc::gen::arbitrary<bool>());
-  rc_rounds(ctx, "C06-programs", ctx.thorough() ? 200000 : 20000, 200, [&]() {
+  rc_rounds(ctx, "C06-programs", ctx.thorough() ? 600000 : 80000, 200, [&]() {
     C06Case c = *gen_case;
     std::string id = ser06(c); if (!ctx.begin(id, join(c.lines, "\\n").substr(0, 300))) return;
     ctx.cls("part:programs"); ctx.cls(c.cuts.empty() ? "calls:one" : "calls:split"); if (c.start) ctx.cls("start:nonzero");
@@ -216,7 +216,7 @@ void prop_c13(hz::Ctx &ctx) {
     ChunkCase k; if (idx.empty()) idx.push_back(1); for (int i : idx) k.lines.push_back(P.lines[(size_t)i % P.lines.size()]);
     static const int CS[] = {0, 1, 2, 3, 4, 5, 7, 8, 11, 12, 13, 15, 16, 17, 24, 31, 32, 33, 64, 100, 128, 4096}; k.c = CS[c % 22]; k.start = start; k.combo = combo; k.toggle = toggle; return k; },
     rc::gen::container<std::vector<int>>(range(0, 1 << 20)), range(0, 22), range(0, 300), range(0, 12), range(0, 4));
-  rc_rounds(ctx, "C13-programs", ctx.thorough() ? 200000 : 20000, 60, [&]() {
+  rc_rounds(ctx, "C13-programs", ctx.thorough() ? 2000000 : 250000, 60, [&]() {
     ChunkCase k = *gen_case; std::string id = serck(k); if (!ctx.begin(id, join(k.lines, "\\n").substr(0, 300))) return;
     size_t pads = 0; HV v = check13(k, &pads);
     ctx.cls("part:programs"); if (k.toggle) ctx.cls("toggle:yes"); if (k.c < 2) ctx.cls("c:below2"); if (pads) { ctx.cls("pad:required"); ctx.nontrivial(id); }
@@ -244,7 +244,7 @@ void prop_c14(hz::Ctx &ctx) {
     ChunkCase k; k.counting = true; if (idx.empty()) idx.push_back(1); for (int i : idx) k.lines.push_back(P.lines[(size_t)i % P.lines.size()]);
     static const int CS[] = {-5, -1, 0, 1, 2, 3, 4, 5, 7, 8, 11, 13, 15, 16, 17, 32, 33, 64, 100, 4096, 65536, 1 << 30}; k.c = CS[c % 22]; k.start = start; k.combo = combo; k.calls = calls; return k; },
     rc::gen::container<std::vector<int>>(range(0, 1 << 20)), range(0, 22), range(0, 300), range(0, 12), range(1, 4));
-  rc_rounds(ctx, "C14-programs", ctx.thorough() ? 300000 : 30000, 60, [&]() {
+  rc_rounds(ctx, "C14-programs", ctx.thorough() ? 3000000 : 300000, 60, [&]() {
     ChunkCase k = *gen_case; std::string id = serck(k); if (!ctx.begin(id, join(k.lines, "\\n").substr(0, 300))) return;
     int want = 0; HV v = check14(k, &want);
     ctx.cls("part:programs"); if (k.c < 2) ctx.cls("c:below2"); if (k.calls > 1) ctx.cls("calls:repeated"); if (want >= 1 && k.start != 0) ctx.nontrivial(id);
@@ -328,7 +328,7 @@ void prop_c12(hz::Ctx &ctx) {
   // random long sequences over 1-3 live instances
   auto gcmd = rc::gen::apply([](int i, int s, int v) { return SetCmd{i, s, VALS[v]}; }, range(0, 3), range(0, 5), range(0, 4));
   auto gen_case = rc::gen::pair(range(1, 4), rc::gen::container<std::vector<SetCmd>>(gcmd));
-  rc_rounds(ctx, "C12-sequences", ctx.thorough() ? 100000 : 15000, 40, [&]() {
+  rc_rounds(ctx, "C12-sequences", ctx.thorough() ? 1000000 : 150000, 40, [&]() {
     auto pr = *gen_case; int ninst = pr.first; std::vector<SetCmd> h = pr.second; for (auto &c : h) c.inst %= ninst;
     std::string id = ser12(h, ninst); if (!ctx.begin(id, text12(h).substr(0, 300))) return;
     ctx.cls("part:random"); if (ninst > 1) ctx.cls("instances:several"); if (h.size() >= 2) ctx.nontrivial(id);
@@ -444,7 +444,7 @@ void prop_c15(hz::Ctx &ctx) {
   for (size_t i = 0; i < hs.size(); i++) for (size_t j = 0; j < finals.size(); j++) { if (!ctx.take()) continue; C15Case c; c.hist = hs[i]; c.final = finals[j]; c.k = (int)((i * 37 + j * 11) % 300); c.poolseed = ctx.seed; run(c, "part:exhaustive-len<=3", false); }
   // random histories (rapidcheck)
   auto gen_case = rc::gen::apply([&](std::vector<HCmd> h, int k, HCmd fin) { C15Case c; c.hist = h; c.k = k; c.final = fin; c.poolseed = ctx.seed; return c; }, rc::gen::container<std::vector<HCmd>>(gen_hcmd(false)), range(0, 4096), gen_hcmd(true));
-  rc_rounds(ctx, "C15-histories", ctx.thorough() ? 200000 : 25000, 30, [&]() { C15Case c = *gen_case; run(c, "part:random", true); });
+  rc_rounds(ctx, "C15-histories", ctx.thorough() ? 1500000 : 200000, 30, [&]() { C15Case c = *gen_case; run(c, "part:random", true); });
 }
 
 // ===================================================================== replay
